@@ -124,8 +124,8 @@ static int _decode
 		addr = tmp.base;
 		curr = tmp.used;
 		
-		/* target base alignment */
-		while (align > 1) {
+		/* target base alignment for new message, open block keeps work area */
+		while (!code && align > 1) {
 			size_t post = 0;
 			if ((curr < align/2)
 			    || (proc < (post = ((uintptr_t) addr) & (align - 1)))) {
